@@ -376,6 +376,15 @@ func genNet(o *hx.Out, rng *hx.Rng, scale int) {
 			}
 		}
 	}
+	// right-length bitmap (4 validators: one byte) with padding bits set, at every stored height
+	for hgt := uint32(0); hgt <= netBlocks+1; hgt++ {
+		for _, bits := range []byte{0x0f, 0x1f, 0x10, 0x20, 0x40, 0x80, 0x8f, 0xf0, 0xff} {
+			for _, sl := range []int{96} {
+				a := &blockchain.AggregateCommit{Height: hgt, AggregationBits: []byte{bits}, CertificateSignature: sized(sl, 0xc0)}
+				put("verifyAggregateCommit")(a.Encode(), "padding-bits")
+			}
+		}
+	}
 	family(rng, (&blockchain.AggregateCommit{Height: 2, AggregationBits: []byte{0x0f}, CertificateSignature: sized(96, 0xc0)}).Encode(), 20*scale, put("verifyAggregateCommit"))
 
 	// ---- single commits
